@@ -214,9 +214,12 @@ class Engine:
         self._next_ref += 1
         return self._next_ref
 
-    def new_dict(self, st: State, content: Optional[Z.ZMap] = None) -> D:
+    def new_dict(self, st: State, content: Optional[Z.ZMap] = None, own=False) -> D:
         r = self.new_ref()
         st.dicts[r] = content if content is not None else Z.ZMap.empty()
+        if own:
+            # allocated by the function under proof itself (copy / dict literal), as opposed to a row a callee yielded
+            st.ghost['own_refs'] = st.ghost.get('own_refs', frozenset()) | {r}
         return D(r)
 
     def oblige(self, st: State, name: str, concl, hyp=(), envs=(), kind='goal', **meta):
@@ -355,7 +358,7 @@ class Engine:
                     for s2, (kv, vv) in [(s3, (a, b)) for s3, ab in self.eval_seq([k, v], s) for a, b in [ab]]:
                         nxt.append((s2, m.store(self.as_int(kv), self.as_hv(s2, vv))))
             outs = nxt
-        return [(s, self.new_dict(s, m)) for s, m in outs]
+        return [(s, self.new_dict(s, m, own=True)) for s, m in outs]
 
     def e_List(self, e, st):
         return [(s, Lst(vs, self.new_ref())) for s, vs in self.eval_seq(e.elts, st)]
